@@ -46,6 +46,45 @@ theorem C11_locator_issued (c : Cfg) (sv : List Srv) (picks : List Nat) (loc L :
   rw [hloc]
   exact honest e.1 e.2 (by simpa [is200] using h200)
 
+/-- What the client does with 200 bodies: the locator returned (with or without error) is, verbatim,
+the trimmed body of the most recently processed 200 answer ("" if there was none). It is not
+parsed and not compared with the hash or size that was sent. -/
+theorem C11_locator_verbatim (c : Cfg) (sv : List Srv) (picks : List Nat) (r : Res) (s : St)
+    (h : put c sv picks = some (r, s)) :
+    (match r with | .ok loc _ => loc | .insufficient loc _ => loc) =
+      lastBody c (s.respLog.filter (is200 c)) := by
+  have hi := run_preserved (inv_preserved c) _ _ _ _ _ (inv_init c sv) h
+  have hr := run_result_at c _ _ _ _ _ (inv_init c sv) h
+  cases r with
+  | ok loc n => simp only []; rw [hr.1, hi.loc, hi.okf]
+  | insufficient loc n => simp only []; rw [hr.1, hi.loc, hi.okf]
+
+/-- the hash part of a locator: the bytes before the first '+' -/
+def locHash (loc : List Nat) : List Nat := loc.takeWhile (· != 43)
+
+/-- "The locator returned names the hash that was written" without assuming honest services … -/
+def C11_locator_names_hash_Full : Prop :=
+  ∀ (c : Cfg) (sv : List Srv) (picks : List Nat) (hash loc : List Nat) (n : Int) (s : St),
+    0 < c.want → put c sv picks = some (.ok loc n, s) → locHash loc = hash
+
+/-- … is false: a service that answers 200 with a locator for another hash is believed (the client
+has no check). With honest services `C11_locator_issued` gives the clause. -/
+theorem C11_locator_names_hash_full_fails : ¬ C11_locator_names_hash_Full := by
+  intro hfull
+  have h := hfull { want := 1, rps := 1, retries := 0, script := fun _ _ => ⟨200, 1, [98, 43, 51]⟩ }
+    [0] [] [97] [98, 43, 51] 1
+  have hrun : (put { want := 1, rps := 1, retries := 0, script := fun _ _ => ⟨200, 1, [98, 43, 51]⟩ }
+      [0] []).map (·.1) = some (.ok [98, 43, 51] 1) := by decide
+  cases hp : put { want := 1, rps := 1, retries := 0, script := fun _ _ => ⟨200, 1, [98, 43, 51]⟩ } [0] [] with
+  | none => rw [hp] at hrun; cases hrun
+  | some rs =>
+    obtain ⟨r, s⟩ := rs
+    rw [hp] at hrun
+    simp only [Option.map_some, Option.some.injEq] at hrun
+    subst hrun
+    have := h s (by decide) hp
+    revert this; decide
+
 /-- Otherwise the result is the insufficient-replicas error (the only other result the machine
 has), and the count returned is the number confirmed by the processed 200 answers, which is less
 than `want`. -/
@@ -163,6 +202,51 @@ theorem C11_enough_acceptors_partial (c : Cfg) (sv : List Srv) (picks : List Nat
     have hbal := hi.bal
     omega
 
+/-- what `uploadToKeepServer` reports for an answer of the property's alphabet: at least one
+replica for a response, none (and no status) for a failed exchange -/
+theorem upload_alphabet (h : Http) (ha : InAlphabet h) :
+    (∃ code hdr body be, h = .resp code hdr body be ∧ (upload h).code = code ∧ 1 ≤ (upload h).rep) ∨
+    (h = .connErr ∧ (upload h).code = 0 ∧ (upload h).rep = 0) := by
+  cases h with
+  | connErr => exact Or.inr ⟨rfl, rfl, rfl⟩
+  | resp code hdr body be =>
+    left
+    refine ⟨code, hdr, body, be, rfl, rfl, ?_⟩
+    rcases ha with h1 | h1 | h1 <;> subst h1
+    · exact (by decide : (1 : Int) ≤ 1)
+    · have : parseRep ['1'] = 1 := by decide
+      show (1 : Int) ≤ parseRep ['1']; rw [this]; decide
+    · have : parseRep ['2'] = 2 := by decide
+      show (1 : Int) ≤ parseRep ['2']; rw [this]; decide
+
+/-- **Full strength for the property's answer alphabet.** Let every answer of every service be
+one of the alphabet (`InAlphabet`: connection error, or a response with any status whose
+X-Keep-Replicas-Stored is absent, "1" or "2"), as extracted by `uploadToKeepServer` (`upload`). If
+at least `want` of the writable services (positions of `sv` marked by `acc`) answer 200 on every
+attempt, the write succeeds — whatever the other services answer, for every completion order,
+every `replicasPerService` and every retry limit. No hypothesis on integers is left. -/
+theorem C11_enough_acceptors (want rps retries : Nat) (http : Srv → Nat → Http) (sv : List Srv)
+    (picks : List Nat) (acc : Srv → Bool)
+    (halpha : ∀ x k, InAlphabet (http x k))
+    (hacc : ∀ x k, acc x = true → ∃ hdr body be, http x k = .resp 200 hdr body be)
+    (hcount : want ≤ sv.countP acc) :
+    ∃ loc n s, put { want := want, rps := rps, retries := retries,
+                     script := fun x k => upload (http x k) } sv picks = some (.ok loc n, s) := by
+  apply C11_enough_acceptors_partial _ sv picks acc
+  · intro x k hx
+    obtain ⟨hdr, body, be, he⟩ := hacc x k hx
+    rcases upload_alphabet (http x k) (halpha x k) with ⟨code, hdr', body', be', h1, h2, h3⟩ | ⟨h1, _, _⟩
+    · simp only []
+      rw [he] at h1
+      cases h1
+      exact ⟨h2, h3⟩
+    · rw [he] at h1; cases h1
+  · intro x k h200
+    rcases upload_alphabet (http x k) (halpha x k) with ⟨_, _, _, _, _, _, h3⟩ | ⟨_, _, h3⟩
+    · simp only []; omega
+    · simp only []; omega
+  · exact hcount
+
 /-- The version without the side condition on other services' replica counts is false: a 200
 answer with a negative X-Keep-Replicas-Stored is believed and pushes the target away. (Such an
 answer is outside the property's alphabet; recorded so that the hypothesis is not silently assumed.) -/
@@ -208,6 +292,129 @@ theorem C11_seq_independent (l : List (Cfg × List Srv × List Nat)) (i : Nat) (
   rintro ⟨acc, hacc, hnn, hcount⟩
   obtain ⟨loc, n, s, hp⟩ := C11_enough_acceptors_partial c sv picks acc hacc hnn hcount
   exact ⟨loc, n, s, by rw [h1, hp]⟩
+
+/-! ### What reaches the services (PutHR's stream check, PutHB, PutB) -/
+
+/-- Whatever a service receives completely from `PutHR(hash, r, n)`: with n > 0 it is the whole
+stream, the stream ended with EOF, its MD5 is `hash` and its length is `n` (the client-side check of
+`HashCheckingReader` through the asyncbuf); with n ≤ 0 no body is attached at all, whatever the
+stream holds. The URL carries `hash`, and n ≤ BLOCKSIZE. -/
+theorem C11_puthr_delivered (md5hex : List Nat → List Char) (hash : List Char) (st : Stream)
+    (n : Int) (w : Wire) (b : List Nat) (hw : putHRWire md5hex hash st n = some w)
+    (hd : w.delivered = some b) :
+    w.hash = hash ∧ n ≤ blockSize ∧
+    ((0 < n ∧ b = st.data ∧ st.fin = .eof ∧ md5hex b = hash ∧ (b.length : Int) = n) ∨
+     (n ≤ 0 ∧ b = [] ∧ w.body = none)) := by
+  unfold putHRWire putHR at hw
+  split at hw
+  · cases hw
+  · rename_i p hp
+    split at hp
+    · cases hp
+    · rename_i hc
+      cases hp
+      cases hw
+      have hle : n ≤ blockSize := by
+        unfold blockSize at hc ⊢; omega
+      refine ⟨rfl, hle, ?_⟩
+      by_cases hn : 0 < n
+      · left
+        simp only [wireOf, hn, decide_true, if_true, Wire.delivered] at hd
+        unfold bufferEnd at hd
+        cases hf : st.fin with
+        | err => simp [hf] at hd
+        | eof =>
+          simp only [hf] at hd
+          by_cases hm : md5hex st.data = hash
+          · simp only [hm, if_true] at hd
+            split at hd
+            · rename_i hl
+              cases hd
+              exact ⟨hn, rfl, rfl, hm, hl⟩
+            · cases hd
+          · simp [hm] at hd
+      · right
+        have hn' : ¬ (n > 0) := hn
+        simp only [wireOf, hn', decide_false, Bool.false_eq_true, if_false, Wire.delivered] at hd ⊢
+        cases hd
+        exact ⟨by omega, rfl, trivial⟩
+
+/-- `PutB` sends the buffer under its own MD5; `PutHB` sends the buffer under the caller's hash,
+unchecked. Both requests are always complete. -/
+theorem C11_putb_delivered (md5hex : List Nat → List Char) (hash : List Char) (buf : List Nat) :
+    (putBWire md5hex buf).delivered = some buf ∧ (putBWire md5hex buf).hash = md5hex buf ∧
+    (putHBWire hash buf).delivered = some buf ∧ (putHBWire hash buf).hash = hash := by
+  have key : ∀ h : List Char, (putHBWire h buf).delivered = some buf ∧ (putHBWire h buf).hash = h := by
+    intro h
+    unfold putHBWire putHB
+    simp only [wireOf, Wire.delivered]
+    by_cases hl : buf.length > 0
+    · simp [hl]
+    · have : buf = [] := by
+        cases buf with
+        | nil => rfl
+        | cons a t => simp at hl
+      subst this; simp
+  exact ⟨(key _).1, (key _).2, (key _).1, (key _).2⟩
+
+/-- If no service answers 200 (e.g. because no request can be delivered: wrong hash, short or
+failing stream), a Put of want > 0 fails with zero replicas. -/
+theorem C11_no_200_fails (c : Cfg) (sv : List Srv) (picks : List Nat) (r : Res) (s : St)
+    (hno : ∀ x k, (c.script x k).code ≠ 200) (hw : 0 < c.want)
+    (h : put c sv picks = some (r, s)) : ∃ loc, r = .insufficient loc 0 := by
+  cases r with
+  | ok loc n =>
+    obtain ⟨e, _, h200, _⟩ := (C11_ok_sound c sv picks loc n s h).2.2.2 hw
+    exact absurd (by simpa [is200] using h200) (hno e.1 e.2)
+  | insufficient loc n =>
+    have := (C11_err_reports_count c sv picks loc n s h).2
+    have hnil : s.respLog.filter (is200 c) = [] := by
+      rw [List.filter_eq_nil_iff]
+      intro e _
+      simpa [is200] using hno e.1 e.2
+    rw [hnil] at this
+    exact ⟨loc, by rw [this]; rfl⟩
+
+/-- **An acknowledged `PutHR` (declared size n > 0) was checked by the client**: if a 200 only ever
+answers a request that was delivered completely (any service, honest about content or not), then
+a nil error for want > 0 implies that the stream ended normally, has length n and has MD5 `hash`. -/
+theorem C11_puthr_ack_checked (md5hex : List Nat → List Char) (hash : List Char) (st : Stream)
+    (n : Int) (w : Wire) (c : Cfg) (sv : List Srv) (picks : List Nat) (loc : List Nat) (k : Int) (s : St)
+    (hw : putHRWire md5hex hash st n = some w) (hn : 0 < n)
+    (hrec : ∀ x r, (c.script x r).code = 200 → ∃ b, w.delivered = some b)
+    (hwant : 0 < c.want) (h : put c sv picks = some (.ok loc k, s)) :
+    md5hex st.data = hash ∧ st.fin = .eof ∧ (st.data.length : Int) = n := by
+  obtain ⟨e, _, h200, _⟩ := (C11_ok_sound c sv picks loc k s h).2.2.2 hwant
+  obtain ⟨b, hb⟩ := hrec e.1 e.2 (by simpa [is200] using h200)
+  rcases (C11_puthr_delivered md5hex hash st n w b hw hb).2.2 with ⟨_, h1, h2, h3, h4⟩ | ⟨h1, _, _⟩
+  · subst h1; exact ⟨h3, h2, h4⟩
+  · omega
+
+/-- Without n > 0 this is false: `PutHR(hash, r, 0)` attaches no body and checks nothing the
+services see, so services that do not verify content acknowledge it whatever `r` holds. (An honest
+store compares the MD5 of the empty body with the URL hash and refuses; the correspondence check
+runs both kinds.) -/
+def C11_puthr_ack_checked_Full : Prop :=
+  ∀ (md5hex : List Nat → List Char) (hash : List Char) (st : Stream) (n : Int) (w : Wire) (c : Cfg)
+    (sv : List Srv) (picks : List Nat) (loc : List Nat) (k : Int) (s : St),
+    putHRWire md5hex hash st n = some w →
+    (∀ x r, (c.script x r).code = 200 → ∃ b, w.delivered = some b) →
+    0 < c.want → put c sv picks = some (.ok loc k, s) → md5hex st.data = hash
+
+theorem C11_puthr_ack_checked_full_fails : ¬ C11_puthr_ack_checked_Full := by
+  intro hfull
+  let c : Cfg := { want := 1, rps := 1, retries := 0, script := fun _ _ => ⟨200, 1, [76]⟩ }
+  have hrun : (put c [0] []).map (·.1) = some (.ok [76] 1) := by decide
+  cases hp : put c [0] [] with
+  | none => rw [hp] at hrun; cases hrun
+  | some rs =>
+    obtain ⟨r, s⟩ := rs
+    rw [hp] at hrun
+    simp only [Option.map_some, Option.some.injEq] at hrun
+    subst hrun
+    have := hfull (fun _ => ['y']) ['x'] ⟨[1], .eof⟩ 0 _ c [0] [] [76] 1 s rfl
+      (by intro x r _; exact ⟨[], rfl⟩) (by decide) hp
+    revert this; decide
 
 /-- `putReplicas` always returns, after processing at most (1+Retries)·|sv| answers (and sending
 at most that many requests). -/
@@ -301,6 +508,21 @@ example : [0, 1].Nodup ∧ (put c2 [0, 1] [1, 0]).map (fun r => r.2.reqLog) =
 example : (load false [⟨['a'], ['h'], 1, false, "disk".toList, true⟩,
                        ⟨['b'], ['g'], 2, true, "proxy".toList, false⟩]).writable =
     [(['b'], "https://g:2".toList)] := by decide
+/-- an alphabet script: service 1 always accepts (two replicas), the others answer 503, then fail -/
+def httpEx : Srv → Nat → Http := fun x k =>
+  if x = 1 then .resp 200 (some ['2']) [76] false
+  else if k = 0 then .resp 503 none [] false else .connErr
+
+/-- `C11_enough_acceptors`: its hypotheses are satisfiable -/
+example : ∃ loc n s, put { want := 1, rps := 0, retries := 1, script := fun x k => upload (httpEx x k) }
+      [0, 1] [] = some (.ok loc n, s) :=
+  C11_enough_acceptors 1 0 1 httpEx [0, 1] [] (fun x => x == 1)
+    (by intro x k; unfold httpEx; by_cases h1 : x = 1
+        · simp [h1, InAlphabet, AlphaHdr]
+        · by_cases h2 : k = 0 <;> simp [h1, h2, InAlphabet, AlphaHdr])
+    (by intro x k hx; have : x = 1 := by simpa using hx
+        subst this; exact ⟨_, _, _, rfl⟩)
+    (by decide)
 /-- `C11_seq_independent`: service 1 refuses the first put with 503 and accepts the second -/
 example : (putSeq [({ want := 1, rps := 1, retries := 0, script := fun _ _ => ⟨503, 1, []⟩ }, [0, 1], []),
                    (c3, [0, 2, 1], [0, 0])]).map (fun r => r.map (·.1)) =
